@@ -395,6 +395,63 @@ def run_c10(rep, tier, seed):
                 mi = len(model_lines) - len(ctl_map_keys) + j
                 if impl[fin + 1 + j] != model[mi]:
                     viol("oracle", "stored data differs from what the well-formed SET/DEL commands produce", [impl_lines[fin + 1 + j]], model[mi], impl[fin + 1 + j])
+    # connection-level misbehaviour: connections that are reset (RST) at awkward moments — while still queued behind the
+    # connection limit, right after connecting, in the middle of a frame, with a reply in flight
+    SETk = req_bytes(("SET", b"ck", b"cv")).hex()
+    GETk = req_bytes(("GET", b"ck")).hex()
+    HALF = req_bytes(("SET", b"hk", b"hv"))[:-3].hex()
+    conn_scen = []
+    for mx in (1, 2, 3):
+        for nhost in (1, 3):
+            for payload in ("-", HALF):
+                good = [f"g{i}" for i in range(mx)]
+                sc = [f"srv.start max={mx} mfs=300"]
+                exp = {}
+                for g in good:
+                    sc += [f"c.open {g}", f"c.send {g} {SETk}", f"c.read {g} 1 8000"]
+                    exp[len(sc) - 1] = "S:4f4b"
+                for i in range(nhost):
+                    sc += [f"c.open h{i}"] + ([f"c.send h{i} {payload}"] if payload != "-" else []) + [f"c.abort h{i}"]
+                sc += ["sleep 60", f"c.close {good[-1]}", "sleep 150"]
+                for g in good[:-1]:
+                    sc += [f"c.send {g} {GETk}", f"c.read {g} 1 8000"]
+                    exp[len(sc) - 1] = "B:6376"
+                sc += ["c.open n", f"c.send n {GETk}", "c.read n 1 8000"]
+                exp[len(sc) - 1] = "B:6376"
+                sc += ["srv.alive"]
+                exp[len(sc) - 1] = "alive"
+                sc += ["kv.get 686b"]
+                exp[len(sc) - 1] = "nil"
+                sc += ["srv.stop"]
+                conn_scen.append((f"max_connections={mx}: {nhost} client(s) connect while all slots are taken, " + ("send a truncated SET, " if payload != "-" else "") + "and reset the connection while still queued; then a slot frees", sc, exp))
+    # resets on connections that are being served: after a request whose reply is never read, and in mid-frame
+    sc = ["srv.start max=4 mfs=300", "c.open ctl", f"c.send ctl {SETk}", "c.read ctl 1 8000"]
+    exp = {3: "S:4f4b"}
+    for i in range(6):
+        sc += [f"c.open r{i}", f"c.send r{i} " + (GETk * 20 if i % 2 == 0 else HALF), f"c.abort r{i}", f"c.send ctl {GETk}", "c.read ctl 1 8000"]
+        exp[len(sc) - 1] = "B:6376"
+    sc += ["srv.alive"]
+    exp[len(sc) - 1] = "alive"
+    sc += ["srv.stop"]
+    conn_scen.append(("served connections reset with replies in flight / in mid-frame", sc, exp))
+    for name, sc, exp in conn_scen:
+        shutil.rmtree(root, ignore_errors=True)
+        cdied = None
+        try:
+            ans = run_harness(["net", "--root", root], sc, timeout=300)
+        except Died as d:
+            ans, cdied = d.answered, d
+        rep.cov["evaluations"] += len(sc)
+        rep.count("connection_level_scenarios")
+        rep.nontrivial(["c10conn", name])
+        badl = None
+        if cdied is not None:
+            badl = (len(ans), "an answer", f"process died / hung: {cdied.why}")
+        for li, e in sorted(exp.items()):
+            if badl is None and li < len(ans) and ans[li] != e:
+                badl = (li, e, ans[li])
+        if badl:
+            viol("oracle", f"{name}: step `{sc[min(badl[0], len(sc) - 1)][:80]}` — the other connections / the server are affected by a connection that was reset", sc, badl[1], badl[2])
     # command layer on its own: frames -> Command::try_from, model vs real code (valid and near-valid command frames)
     from p_resp import frame_text, both as resp_both
     names = [b"GET", b"SET", b"DEL", b"get", b"Get", b"PING", b"", b"GETX", b"DE"]
@@ -422,7 +479,9 @@ def run_c10(rep, tier, seed):
     rep.cov["rule"] = ("%d misbehaving byte streams (garbage, unknown/lower-case commands, wrong arity, non-UTF-8 keys, non-array / nested frames, truncated frames then close, sign-only numbers, "
                        "19-20 digit and negative lengths, nesting depth 33 and 200000, valid commands followed by garbage, random mutations of valid requests), each on its own connection, "
                        "interleaved with SET/GET/DEL on one persistent well-behaved connection; checked: process and run loop alive, control replies and final store = Lean handler model "
-                       "(which applies exactly the well-formed commands before the first error), hostile connection closed; non-trivial = distinct hostile stream") % len(hostile)
+                       "(which applies exactly the well-formed commands before the first error), hostile connection closed; plus connection-level misbehaviour: clients that reset (RST) their connection while queued behind the "
+                       "connection limit (with and without a truncated SET sent), and served connections reset with replies in flight or in mid-frame, at max_connections 1/2/3/4: the server keeps running, the other connections and a new one are answered, nothing is stored; "
+                       "non-trivial = distinct hostile stream or scenario") % len(hostile)
     for (kind, ii, mi, info) in [s for s in steps if s[0] == "hostile"][:4]:
         rep.sample({"hostile": info[0], "bytes_hex": info[1][:40].hex(), "server": impl[ii][:80] if ii < len(impl) else None, "model": model[mi][:80]})
 
@@ -477,13 +536,30 @@ def run_c15(rep, tier, seed):
             else:
                 c = rng.choice(alive)
                 alive.remove(c)
-                events.append(("end", c, rng.choice(["close", "garbage", "half", "panic"])))
+                events.append(("end", c, rng.choice(["close", "garbage", "half", "panic", "abort", "abort-half"])))
         # faulty phase: 3*max connections that all end badly, then the capacity test
         for _ in range(3 * mx):
             events.append(("connect", nextid))
-            events.append(("end", nextid, rng.choice(["garbage", "half", "panic", "close"])))
+            events.append(("end", nextid, rng.choice(["garbage", "half", "panic", "close", "abort", "abort-half"])))
             nextid += 1
         for c in list(alive):
+            events.append(("end", c, "close"))
+        # directed: clients that reset their connection while still queued behind the limit, then a slot frees
+        held = list(range(nextid, nextid + mx))
+        nextid += mx
+        for c in held:
+            events.append(("connect", c))
+        events.append(("probe", held[-1]))
+        for _ in range(rng.randint(1, 3)):
+            events.append(("connect", nextid))
+            events.append(("end", nextid, rng.choice(["abort", "abort-half"])))
+            nextid += 1
+        events.append(("end", held[0], "close"))
+        events.append(("connect", nextid))
+        events.append(("probe", nextid))
+        held = held[1:] + [nextid]
+        nextid += 1
+        for c in held:
             events.append(("end", c, "close"))
         fresh = list(range(nextid, nextid + mx + 1))
         for c in fresh:
@@ -548,6 +624,11 @@ def run_c15(rep, tier, seed):
                 elif how == "half":
                     script.append(f"c.send {c} 2a320d0a24330d0a4745")
                     script.append(f"c.close {c}")
+                elif how == "abort":
+                    script.append(f"c.abort {c}")
+                elif how == "abort-half":
+                    script.append(f"c.send {c} 2a320d0a24330d0a4745")
+                    script.append(f"c.abort {c}")
                 else:
                     # make sure the handler is up (round trip) before arming the one-shot panic, so that it is the
                     # handler's own clone() that panics and not the listener's
@@ -595,7 +676,7 @@ def run_c15(rep, tier, seed):
         if sc == 0:
             rep.sample({"max": mx, "events": [list(e) for e in events][:20], "script": script[:20], "answers": ans[:20]})
     shutil.rmtree(root, ignore_errors=True)
-    rep.cov["rule"] = ("seeded event scripts at max_connections 1/2/3: connect / probe (GET) / end by clean close, garbage, half-sent frame, or handler panic (a store wrapper whose clone() panics once), "
+    rep.cov["rule"] = ("seeded event scripts at max_connections 1/2/3: connect / probe (GET) / end by clean close, garbage, half-sent frame, connection reset (RST, also while still queued behind the limit, with or without a half-sent frame), or handler panic (a store wrapper whose clone() panics once), "
                        "then 3*max connections that all end badly, then max+1 fresh connections; the Lean ConnLimit LTS (executed by the driver) predicts after every event which connections are served; "
                        "a served connection must answer within 5 s, an unserved one must stay silent for 250 ms (a slow machine cannot fabricate a reply); non-trivial = distinct script")
 
@@ -631,6 +712,10 @@ def run_c16(rep, tier, seed):
              ["c.open a", "c.sendbig a 6b ab 8192", "c.read a 1 8000", "ctl.block on", "c.send a " + GET(b"k") * 32, "ctl.entered 1 5000"],
              ["srv.signal", "sleep 100", "ctl.block off", "srv.wait 10000", "c.readall a 8000"],
              {3: "returned", 4: "multiple-of:8201"}, []),
+            ("a client that never stops sending: requests are pipelined back to back (a second thread drains the replies), so a complete request is always waiting when the handler looks",
+             ["c.open f", "c.open g", f"c.flood f {GET(b'nokey')}", f"c.flood g {SET(b'fk', b'fv')}", "sleep 200"],
+             ["srv.signal", "srv.wait 10000", "c.flood.end f 5000", "c.flood.end g 5000", "kv.get 666b"],
+             {1: "returned", 2: "flood-multiple-of:5", 3: "flood-multiple-of:5", 4: "6676"}, []),
             ("several connections in different states at once", ["c.open i", "c.open h", "c.send h 2a320d0a2433", "c.open w", "ctl.block on", f"c.send w {SET(b'y', b'2')}", "ctl.entered 1 5000"],
              ["srv.signal", "sleep 100", "ctl.block off", "srv.wait 10000", "c.readraw i 3000", "c.readraw h 3000", "c.readraw w 3000", "kv.get 79"],
              {3: "returned", 4: "- end", 5: "- end", 6: "2b4f4b0d0a end", 7: "32"}, []),
@@ -673,6 +758,11 @@ def run_c16(rep, tier, seed):
                         if nrep > j and base + ki < len(ans) and ans[base + ki] != val:
                             ok = False
                             a = a + f" / but the SET acknowledged by reply {j + 1} is not in the store ({ans[base + ki]})"
+            elif want.startswith("flood-multiple-of:"):
+                # bytes=<n> sent=<m> eof|reset|still-open: only whole replies, then end of stream
+                unit = int(want.split(":")[1])
+                mm = re.match(r"bytes=(\d+) sent=(\d+) (eof|reset)$", a)
+                ok = bool(mm) and int(mm.group(1)) % unit == 0 and int(mm.group(1)) > 0
             elif want.startswith("multiple-of:"):
                 # only whole replies of the given length, then end of stream
                 unit = int(want.split(":")[1])
@@ -697,7 +787,7 @@ def run_c16(rep, tier, seed):
             rep.sample({"state": name, "script": [x[:100] for x in script], "answers": [x[:100] for x in ans]})
     shutil.rmtree(root, ignore_errors=True)
     rep.cov["rule"] = ("the shutdown future of the real server is fired at each handler state: idle, after a partial frame, inside a store call held on a gate (run must not return before the "
-                       "command finishes; its reply must arrive complete and its effect be in the store), with pipelined commands buffered, during a 600 KB reply to a reading client, and a mix; "
+                       "command finishes; its reply must arrive complete and its effect be in the store), with pipelined commands buffered, during a 600 KB reply to a reading client, with 32 pipelined 8 KiB replies, with clients that flood the server with back-to-back requests across the signal, and a mix; "
                        "checked: run returns within 10 s, each client receives complete replies then end-of-stream (EOF or RST), every SET whose reply arrived is in the store; non-trivial = distinct scenario instance")
 
 
@@ -716,8 +806,12 @@ def run_c11(rep, tier, seed):
         ops = rng.choice([30, 60]) if tier == "quick" else rng.choice([50, 120])
         keys = rng.choice([1, 2, 3])
         preset = rng.choice(["frag=0/1 dead=0 small=1099511627776", "frag=1/4 dead=1099511627776 small=0"])
+        mix = ""
+        if ri % 3 == 2:
+            # hot key, SET and GET only (no DEL): a GET that follows an acknowledged SET can never be answered with a null
+            keys, clients, ops, mix = 1, 8, ops * 4, " sets=25 dels=0"
         script = [f"srv.start max=32 mfs={mfs} pool={rng.choice([1, 2, 4])} {preset}",
-                  f"netstress clients={clients} ops={ops} keys={keys} seed={rng.randint(1, 10**6)} big={rng.choice([0, 10, 30])}", "srv.alive", "srv.stop"]
+                  f"netstress clients={clients} ops={ops} keys={keys} seed={rng.randint(1, 10**6)} big={rng.choice([0, 10, 30])}{mix}", "srv.alive", "srv.stop"]
         shutil.rmtree(root, ignore_errors=True)
         died = None
         try:
